@@ -435,17 +435,10 @@ func runC10(env *core.Env) {
 		{Name: "set{result,state}||prune", Store: cf.SA, Procs: []core.Req{core.R("", "--json", "set", cf.T2).In(`{"result_path":"out.txt","result_summary":"s","state":"done"}`), core.R("", "--json", "prune", "--yes")}},
 	}, func(core.Obs) string { return "" })
 	// failures caused by the environment: EIO injected into every system call on a store file
-	faultCov := failUnchangedPhase(env, "C10", rich.Store, []crashCmd{
-		{"new-task", core.R("", "--json", "new", "task").In(`{"title":"ft","state":"done"}`)},
-		{"set", core.R("", "--json", "set", rich.ByState["todo"]).In(`{"title":"fz","state":"doing","claim":"ag"}`)},
-		{"claim", core.R("", "--json", "claim", "--agent", "ag")},
-		{"sequence", core.R("", "--json", "sequence", rich.ByState["todo"], rich.ByState["canceled"], rich.ByState["error"])},
-		{"prune", core.R("", "--json", "prune", "--yes")},
-		{"plan", core.R("", "--json", "plan").In(`{"title":"P","tasks":[{"title":"a"},{"title":"b","after":["a"]}]}`)},
-		{"compact", core.R("", "--json", "compact")},
-	})
+	faultCov := failUnchangedPhase(env, "C10", rich.Store, c10FaultCmds(rich))
+	shortCov := shortWritePhase(env, "C10", rich.Store, c10FaultCmds(rich))
 	env.Finish("model_checking", map[string]interface{}{
-		"concurrent": concCov, "io_error_phase": faultCov,
+		"concurrent": concCov, "io_error_phase": faultCov, "short_write_phase": shortCov,
 		"states": len(pres), "transitions": evals, "traces_validated_against_impl": validated,
 		"evaluations": evals, "distinct_nontrivial": distinct.len(),
 		"rule":       "cross product (command, field subset of {title,body,epic,state,claim,result} up to pairs + mixed triples, every value incl. poisoned ones, 10 targets incl. pruned/unknown ids, 3 input modes; all sequence pairs/triples over 8 ids; plan rejection catalogue; usage errors; every mutating command under a held flock) x pre-states; non-trivial = exits non-zero; distinct = (command family, error class)",
@@ -470,4 +463,17 @@ func errClass(b []byte) string {
 		s = s[:60]
 	}
 	return s
+}
+
+// c10FaultCmds: one representative of every write path (single append, composite append, chain, prune, both rewrites).
+func c10FaultCmds(rich *Rich) []crashCmd {
+	return []crashCmd{
+		{"new-task", core.R("", "--json", "new", "task").In(`{"title":"ft","state":"done"}`)},
+		{"set", core.R("", "--json", "set", rich.ByState["todo"]).In(`{"title":"fz","state":"doing","claim":"ag"}`)},
+		{"claim", core.R("", "--json", "claim", "--agent", "ag")},
+		{"sequence", core.R("", "--json", "sequence", rich.ByState["todo"], rich.ByState["canceled"], rich.ByState["error"])},
+		{"prune", core.R("", "--json", "prune", "--yes")},
+		{"plan", core.R("", "--json", "plan").In(`{"title":"P","tasks":[{"title":"a"},{"title":"b","after":["a"]}]}`)},
+		{"compact", core.R("", "--json", "compact")},
+	}
 }
